@@ -1,7 +1,7 @@
 """Maintenance script (not used by the checks): imports the confirmed sub-agent changes from a staging directory into
 /verif/seeded/<id>/ and (re-)evaluates every seeded change against the current checks.
 
-  python3 harness/build_seeded.py import <staging> <confirm.log> [...]   # staging/<Cxx>/{patchN.diff,demoN.py,notesN.md}
+  python3 harness/build_seeded.py import [--offset K] <staging> <confirm.log> [...]   # staging/<Cxx>/{patchN.diff,demoN.py,notesN.md} -> seeded/Cxx-(N+K)
   python3 harness/build_seeded.py eval [id ...]                          # applies each patch to a scratch worktree, runs ./check quick
 
 The evaluation uses a scratch git worktree of /repo under /tmp (removed afterwards) and ACRYO_REPO, so /repo is never touched.
@@ -24,7 +24,7 @@ def para(text, heads, limit):
     return ""
 
 
-def do_import(staging, logs):
+def do_import(staging, logs, offset=0):
     conf = {}
     for lg in logs:
         for line in open(lg):
@@ -42,7 +42,7 @@ def do_import(staging, logs):
             if dc != "0" or dp == "0" or not tests.startswith("1 failed, 161 passed"):
                 print("not kept (confirmation failed):", pid, i, conf[(pid, i)])
                 continue
-            sid = f"{pid}-{i}"
+            sid = f"{pid}-{int(i) + offset}"
             out = os.path.join(SEEDED, sid)
             os.makedirs(out, exist_ok=True)
             shutil.copy(patch, os.path.join(out, "patch.diff"))
@@ -117,6 +117,10 @@ def do_eval(ids):
 
 if __name__ == "__main__":
     if sys.argv[1] == "import":
-        do_import(sys.argv[2], sys.argv[3:])
+        args = sys.argv[2:]
+        off = 0
+        if args[0] == "--offset":
+            off = int(args[1]); args = args[2:]
+        do_import(args[0], args[1:], off)
     else:
         do_eval(sys.argv[2:])
